@@ -304,10 +304,23 @@ pub fn run_grevm(
             }
             last_seq = seq;
             if stable >= 3 && !cancelled {
-                // confirmation: a real stall is still there, unchanged, much later
-                std::thread::sleep(Duration::from_millis(1500));
-                let (live2, idle2) = idle_sample(o, &mut last_slot_spins);
-                if done.load(Ordering::SeqCst) || o.seq_now() != seq || live2 == 0 || !idle2 {
+                // confirmation: a real stall is still there, unchanged, much later. A coordinator
+                // that was unparked but has not been scheduled yet still counts as parked, so the
+                // wait is measured in scheduling canaries rather than in time alone: three times a
+                // fresh thread (made runnable after whatever woke the coordinator) must have run.
+                let mut confirmed = true;
+                for _ in 0..3 {
+                    std::thread::scope(|cs| {
+                        cs.spawn(|| std::hint::black_box(()));
+                    });
+                    std::thread::sleep(Duration::from_millis(500));
+                    let (live2, idle2) = idle_sample(o, &mut last_slot_spins);
+                    if done.load(Ordering::SeqCst) || o.seq_now() != seq || live2 == 0 || !idle2 {
+                        confirmed = false;
+                        break;
+                    }
+                }
+                if !confirmed {
                     stable = 0;
                     continue;
                 }
